@@ -61,10 +61,10 @@ CLAIMED["C06"] = {
             "steady_master_among_others_is_never_dropped: the same with any number of other foreign masters on the port announcing whatever "
             "and whenever they like, provided every Announce of the steady master beats theirs in the data set comparison (for instance by "
             "a lower priority1, dom_of_lower_priority1) - a master that is not the port's best loses its newest record on every BMCA run "
-            "and is legitimately not covered. Constants are tied to the source by the translator.",
+            "and is legitimately not covered. Constants are tied to the source by the translator. is_announce_message_qualified is translated from the source on every run (own-clock rule, sequence freshness rule, stepsRemoved cut-off: operator and bound of each, named constants evaluated) and proved equal to the model's FML.qualified for all lists and Announces (generated_qualification_is_model).",
     "note": "Trusted: Lean kernel; generators; the BMCA step equals the smallest announce interval (host contract). Known finding: a "
             "network-duplicated Announce (same sequenceId) counts as two.",
-    "technique": "Lean 4 theorems (invariants by induction over op histories) + translated constants + differential correspondence",
+    "technique": "the qualification rules translated from the source on every run and proved equal to the model + Lean 4 theorems (invariants by induction over op histories) + translated constants + differential correspondence",
 }
 
 CLAIMED["C07"] = {
